@@ -110,6 +110,9 @@ func c04ShippedRun(c c04Shipped) error {
 	for j := c.Lo; j < hi; j++ {
 		jj := uint32(j) // every draw steered to alternative j, wherever the word draw sits
 		o := callForced(nil, func(int, uint32) uint32 { return jj }, 3, r.Generate)
+		if e := o.S.IndexLevelOK(); e != nil {
+			return &ev.Inc{Why: e.Error()}
+		}
 		if o.Pw == nil || o.Panic != nil {
 			return fmt.Errorf("index %d: generation failed (%v, %v)", j, o.Err, o.Panic)
 		}
